@@ -6,7 +6,10 @@ mode ordering and dimensions) and the participant sets iterated in every order. 
 is replaced by a stub whose precondition is the property's: every argument is a Tensor of exactly the
 order, modes and ordering the kernel was generated for, and all dimensions sharing an index are
 equal.  Obligations: that precondition at the kernel call; only TypeError/ValueError escape before it;
-allocate -> kernel -> take_ownership happen in this order, once each.
+allocate -> kernel -> take_ownership happen in this order, once each; the output is allocated with
+the output format's modes and ordering and, per target index, the size of the arguments' dimension
+that carries the index (C01: the result's dimensions); the kernel receives the output struct and
+every argument's own struct in the order of problem.formats.
 """
 
 from __future__ import annotations
@@ -43,10 +46,12 @@ FAMILY = [
     ("a(i) = b(i) + c(i) * d(i) + e(i)", {"a": "d", "b": "s", "c": "d", "d": "s", "e": "d"}),
     ("A(i,j,k) = B(i,j,k) + C(i,j,k)", {"A": "dss", "B": "dss", "C": "sss"}),
     ("y(j) = A(i,j) * x(i)", {"y": "d", "A": "d1s0", "x": "d"}),
+    ("T(j,i) = B(i,j) + C(i,j)", {"T": "dd", "B": "ds", "C": "dd"}),
 ]
 
 
-def run(report):
+def run(report, only=None):
+    """only: substrings of the obligation names to decide (None = all)."""
     import tensora.compile._tensor_method as TM
     from tensora import tensor_method
     from tensora.format import Mode
@@ -121,15 +126,41 @@ def run(report):
 
         events = []
 
+        out_fmt = tm._output_format
+        target = a.target
+        participants = {i: sorted(ps_) for i, ps_ in a.expression.index_participants().items()}
+        order_names = list(problem.formats.keys())
+
         class Evaluate:
             def apply(self, it, fn, args, kwargs):
                 events.append("kernel")
                 it.path.oblige(f"{label}:kernel-entered-only-on-consistent-arguments", "pre", valid())
+                # the compiled kernel takes the tensors in the order of problem.formats: output struct and each argument's own struct
+                conj = [z3.BoolVal(len(args) == len(order_names))]
+                for pos, nm in enumerate(order_names[: len(args)]):
+                    if nm == tm._output_name:
+                        conj.append(z3.BoolVal(isinstance(args[pos], tuple) and args[pos] == ("cffi_output",)))
+                    elif isinstance(args[pos], Sym):
+                        conj.append(args[pos].t == acc("cffi_tensor", arg_terms[nm]))
+                    else:
+                        conj.append(z3.BoolVal(False))
+                it.path.oblige(f"{label}:kernel-receives-each-tensor-in-its-own-slot", "pre", z3.And(*conj))
                 return it.wrap(it.path.fresh("return_value", TInt), TInt)
 
         class Allocate:
             def apply(self, it, fn, args, kwargs):
                 events.append("allocate")
+                modes, dims, ordering = args[0], args[1], args[2]
+                ok_static = tuple(modes) == tuple(m.c_int for m in out_fmt.modes) and tuple(ordering) == tuple(out_fmt.ordering) and len(dims) == len(target.indexes)
+                conj = [z3.BoolVal(ok_static)]
+                if ok_static:
+                    for d, index in enumerate(target.indexes):
+                        if index in participants:
+                            v0, d0 = participants[index][0]
+                            conj.append(it.to_int_term(dims[d]) == acc("dimensions", arg_terms[v0])[d0])
+                        else:
+                            conj.append(z3.BoolVal(False))
+                it.path.oblige(f"{label}:output-allocated-with-the-target-dimensions-and-format", "pre", z3.And(*conj))
                 return ("cffi_output",)
 
         class Own:
@@ -169,8 +200,9 @@ def run(report):
         # typestate on every path that reaches the kernel
         bad_order = [ev for kind, ev, _ in outcomes if "kernel" in ev and ev[:3] != ["allocate", "kernel", "take_ownership:output"]]
         oid = f"{label}:allocate<kernel<take_ownership(output), once each"
-        report.add_obligation(oid, "B", "discharged" if not bad_order else "sat", "pyvc path exploration", 0.0, "TensorMethod.__call__")
-        if bad_order:
+        if only is None:
+            report.add_obligation(oid, "B", "discharged" if not bad_order else "sat", "pyvc path exploration", 0.0, "TensorMethod.__call__")
+        if bad_order and only is None:
             report.violation(oid, dict(what=f"event order on some path: {bad_order[0]}"), False)
         seen = set()
         for ps in paths:
@@ -182,6 +214,8 @@ def run(report):
                 if (ob.oid, str(ob.goal)) in seen:
                     continue
                 seen.add((ob.oid, str(ob.goal)))
+                if only is not None and not any(x in ob.oid for x in only):
+                    continue
                 ctx.solve(ob, 20000)
                 report.add_obligation(ob.oid, "B", ob.verdict, ob.solver, ob.ms, "TensorMethod.__call__")
                 if ob.verdict == "sat":
@@ -191,7 +225,10 @@ def run(report):
                             w[n] = repr(u.lower(ob.model.eval(arg_terms[n], model_completion=True), ARG))
                     except Exception as e:
                         w = f"(model not decodable: {e!r})"
-                    report.violation(ob.oid, dict(what="the kernel is entered (or an undocumented exception escapes) for these argument descriptions", arguments=w, path=ob.meta.get("labels"),
+                    what = ("the output is not allocated with the target's dimensions/format" if "output-allocated" in ob.oid else
+                            "the kernel does not receive each tensor in its own slot" if "kernel-receives" in ob.oid else
+                            "the kernel is entered (or an undocumented exception escapes)")
+                    report.violation(ob.oid, dict(what=what + " for these argument descriptions", arguments=w, path=ob.meta.get("labels"),
                                                   how_to_replay="build tensors with these orders/modes/orderings/dimensions and call tensor_method(assignment, formats)(**arguments)"), False)
                 elif ob.verdict != "discharged":
                     report.undecide(f"{ob.oid}: {ob.verdict}")
